@@ -20,6 +20,7 @@ inductive MH where
   | floatList (n : Nat)
   | depIntRangeLo (field : String) (hi : Int)   -- Dependent(field, λ a. IntRange(a, hi))
   | depIntRangeHi (lo : Int) (field : String)   -- Dependent(field, λ a. IntRange(lo, a))
+  | depIntRangeSpan (w lo : String)             -- Dependent("w,lo", λ w lo. IntRange(lo, lo + w)): two siblings, NAMED order
   | depListSize (field : String)                -- Dependent(field, λ n. ListSizeBetween(n, n))
   | depVarFrom (field : String)                 -- Dependent(field, λ xs. VarRange(xs)); raises SynthesisException on []
   deriving Repr, BEq, Inhabited
